@@ -103,7 +103,18 @@ theorem inv2_step {P : Params} {s s' : State} (h1 : Inv1 P s) (h : Inv2 s) (hs :
       · unfold Shape; simp only [setPhase, updF_same]; exact hsh
       · unfold HistPhase; simp only [setPhase, updF_same]; exact hph
     · other_tx h j hj
-  | execReadBase i l k reads blocked hp hr =>
+  | execReadMiss i l k reads blocked hp hr =>
+    intro j
+    by_cases hj : j = i
+    · subst hj
+      have hj := h j
+      have hsh := hj.shape; unfold Shape at hsh; rw [hp] at hsh
+      have hph := hj.hist.phase; unfold HistPhase at hph; rw [hp] at hph
+      refine ⟨?_, hj.entry, ⟨hj.hist.le_inc, hj.hist.res, ?_⟩⟩
+      · unfold Shape; simp only [setPhase, updF_same]; exact hsh
+      · unfold HistPhase; simp only [setPhase, updF_same]; exact hph
+    · other_tx h j hj
+  | execFetch i l k reads blocked hp =>
     intro j
     by_cases hj : j = i
     · subst hj
